@@ -386,6 +386,19 @@ func (c *core) fastForward(block *hg.Block, frame *hg.Frame) error {
 	c.setPeers(peers.NewPeerSet(frame.Peers))
 	c.validators = peers.NewPeerSet(frame.Peers)
 
+	// The frame ships the whole validator-set history, which may already
+	// contain a set that becomes effective after the frame's round (a join or
+	// leave accepted less than six rounds before the anchor). Subsequent
+	// changes must be computed from that latest recorded set, as they are by
+	// the nodes that processed the blocks themselves.
+	latestRound := frame.Round
+	for round, ps := range frame.PeerSets {
+		if round > latestRound {
+			latestRound = round
+			c.validators = peers.NewPeerSet(ps)
+		}
+	}
+
 	return nil
 }
 
